@@ -35,6 +35,12 @@ pub struct Case {
     pub schedule: Vec<u64>,
     /// (poll index, Some(ticks from that poll's now) | None)
     pub trigger: Option<(usize, Option<u64>)>,
+    /// remove_object at this poll index (before the drain)
+    #[serde(default)]
+    pub remove: Option<usize>,
+    /// allow_immediate_stop_before_first_transfer = Some(true)
+    #[serde(default)]
+    pub imm_stop: bool,
 }
 
 fn objects(c: &Cfg) -> Vec<ObjSpec> {
@@ -77,6 +83,8 @@ pub struct G {
     pub paced_packets_delayed: u64,
     pub triggers_accepted: u64,
     pub fdt_reemissions: u64,
+    pub removals: u64,
+    pub removals_mid_transfer: u64,
     pub outcomes: std::collections::BTreeSet<u64>,
 }
 
@@ -99,7 +107,12 @@ pub fn run_case(case: &Case, g: &mut G) -> Option<(String, String)> {
             4 => 3 * TICK,
             _ => 1000,
         };
-        let cat = Arc::new(objects(c));
+        let mut objs = objects(c);
+        if case.imm_stop {
+            objs[0].immediate_stop = Some(true);
+        }
+        let cat = Arc::new(objs);
+        let mut removed_li: Option<usize> = None;
         let mut sys = SendSys::new(&sess, cat.clone());
         for k in 0..cat.len() {
             sys.apply(&Ev::Add(k));
@@ -128,6 +141,16 @@ pub fn run_case(case: &Case, g: &mut G) -> Option<(String, String)> {
                         if let Some(t) = ts {
                             gate_ms = Some(t);
                         }
+                    }
+                }
+            }
+            if case.remove == Some(pi) {
+                sys.apply(&Ev::Remove(0));
+                if matches!(sys.log.last(), Some(Item::Api(_, r)) if r == "true") {
+                    removed_li = Some(sys.log.len());
+                    g.removals += 1;
+                    if is_open(&sys.log, toi) {
+                        g.removals_mid_transfer += 1;
                     }
                 }
             }
@@ -185,6 +208,9 @@ pub fn run_case(case: &Case, g: &mut G) -> Option<(String, String)> {
             }
             match it {
                 Item::Start(t, ms) if *t == toi => {
+                    if removed_li.map(|r| li >= r).unwrap_or(false) {
+                        return Some(("C14/transfer-started-after-removal".into(), format!("transfer starts at t={}ms although remove_object returned true before", ms)));
+                    }
                     if let Some(gt) = gate_now {
                         if (*ms as i64) < gt {
                             return Some(("C14/transfer-before-start-time".into(), format!("transfer starts at t={}ms, start time is {}ms", ms, gt)));
@@ -261,7 +287,7 @@ pub fn run_case(case: &Case, g: &mut G) -> Option<(String, String)> {
             }
             // end of a poll: every due packet of an open paced transfer must be out
             if let Some((_, now)) = poll_ends.iter().find(|(e, _)| *e == li + 1) {
-                if open && li < horizon {
+                if open && li < horizon && !removed_li.map(|r| li >= r).unwrap_or(false) {
                     let target: Option<u64> = match c.target {
                         1 => Some(0),
                         2 => Some(4 * TICK),
@@ -318,7 +344,12 @@ pub fn run_case(case: &Case, g: &mut G) -> Option<(String, String)> {
         }
         // no stall: after the long drain the object has completed (carousel: at least two transfers)
         let need = if c.carousel == 0 { 1 } else { 2 };
-        if stops.len() < need {
+        if removed_li.is_some() {
+            // a removed object owes nothing more, but a transfer it had started must have been closed
+            if open {
+                return Some(("C14/stall".into(), format!("the object was removed during a transfer that never ended (starts {:?}, stops {:?})", starts, stops)));
+            }
+        } else if stops.len() < need {
             return Some((
                 "C14/stall".into(),
                 format!("after advancing the clock by 400 ticks the object completed {} transfer(s), expected at least {} (starts {:?})", stops.len(), need, starts),
@@ -401,16 +432,28 @@ pub fn run(thorough: bool) -> i32 {
                     sched.push(steps[cc % steps.len()]);
                     cc /= steps.len();
                 }
-                let case = Case { cfg: cfg.clone(), schedule: sched.clone(), trigger: None };
+                let case = Case { cfg: cfg.clone(), schedule: sched.clone(), trigger: None, remove: None, imm_stop: false };
                 if let Some((k, w)) = run_case(&case, &mut g) {
                     found.entry(k).or_insert((w, case));
+                }
+                // one deviation: remove_object at every poll index, with and without the immediate-stop permission
+                // (crossed with the fixed sub-grid of schedules whose code is 3 modulo 7)
+                if code % 7 == 3 {
+                    for ri in 0..npoll {
+                        for imm_stop in [false, true] {
+                            let case = Case { cfg: cfg.clone(), schedule: sched.clone(), trigger: None, remove: Some(ri), imm_stop };
+                            if let Some((k, w)) = run_case(&case, &mut g) {
+                                found.entry(k).or_insert((w, case));
+                            }
+                        }
+                    }
                 }
                 // one deviation: trigger at every poll index (schedules thinned to keep the product finite:
                 // every schedule whose code is a multiple of 7, i.e. a fixed 1/7 sub-grid, is crossed with it)
                 if code % 7 == 0 {
                     for ti in 0..npoll {
                         for dt in [None, Some(2u64)] {
-                            let case = Case { cfg: cfg.clone(), schedule: sched.clone(), trigger: Some((ti, dt)) };
+                            let case = Case { cfg: cfg.clone(), schedule: sched.clone(), trigger: Some((ti, dt)), remove: None, imm_stop: false };
                             if let Some((k, w)) = run_case(&case, &mut g) {
                                 found.entry(k).or_insert((w, case));
                             }
@@ -422,7 +465,7 @@ pub fn run(thorough: bool) -> i32 {
         },
         |_, (ci, _)| {
             let mut f: std::collections::BTreeMap<String, (String, Case)> = Default::default();
-            f.insert("C14/hang".into(), ("schedule sweep did not finish in 300 s (a read loop that never returns?)".into(), Case { cfg: cfgs[*ci].clone(), schedule: vec![], trigger: None }));
+            f.insert("C14/hang".into(), ("schedule sweep did not finish in 300 s (a read loop that never returns?)".into(), Case { cfg: cfgs[*ci].clone(), schedule: vec![], trigger: None, remove: None, imm_stop: false }));
             (G::default(), f)
         },
     );
@@ -435,6 +478,8 @@ pub fn run(thorough: bool) -> i32 {
         g.paced_packets_delayed += gg.paced_packets_delayed;
         g.triggers_accepted += gg.triggers_accepted;
         g.fdt_reemissions += gg.fdt_reemissions;
+        g.removals += gg.removals;
+        g.removals_mid_transfer += gg.removals_mid_transfer;
         g.outcomes.extend(gg.outcomes.iter());
         for (key, (what, case)) in found {
             rep.add(Violation { key, what, case: json!({"check": "schedule", "case": serde_json::to_value(&case).unwrap()}) });
@@ -455,8 +500,11 @@ pub fn run(thorough: bool) -> i32 {
     rep.guard("paced_packets_sent_after_the_first_instant", g.paced_packets_delayed);
     rep.guard("triggers_accepted", g.triggers_accepted);
     rep.guard("fdt_instance_reemissions", g.fdt_reemissions);
+    rep.guard("removals_accepted", g.removals);
+    rep.guard("removals_during_a_transfer", g.removals_mid_transfer);
     rep.sample(json!({"cfg": cfgs[7], "schedule": [0, 1, 5, 0, 2], "trigger": null, "meaning": "clock advance in ticks of 250 ms before each poll (drain until None)"}));
     rep.assume("carousel clause is checked literally for max_transfer_count = 1 (DESIGN §5); an accepted trigger_transfer_at resets the carousel reference and replaces the start gate by its timestamp");
+    rep.assume("the remove_object deviation (every poll index, with and without allow_immediate_stop_before_first_transfer) is crossed with the fixed sub-grid of schedules whose code is 3 modulo 7");
     rep.assume("the trigger deviation is crossed with the fixed sub-grid of schedules whose code is a multiple of 7, all other dimensions are full products");
     rep.finish()
 }
